@@ -8,12 +8,14 @@ set -u
 P="$1"; f=$(echo "$P" | tr 'C' 'c')
 grep -q "^$f = " "$VERIF_DIR/apiprobe/Cargo.toml" || exit 0
 W="$VERIF_DIR/work"; mkdir -p "$W" "$VERIF_DIR/replays"
-LOG="$W/apiprobe-$P.log"
+LOG="$W/apiprobe-$P.log"; rm -f "$W/apiprobe-$P.json"
 ( cd "$VERIF_DIR/apiprobe" && flock "$W/.buildapi.lock" cargo check --offline --features "$f" --message-format short ) >"$LOG" 2>&1
 rc=$?
 if [ $rc -eq 0 ]; then
-  n=$(grep -c "^    [a-z_]*(&\|^        [a-z_]*::<" "$VERIF_DIR/apiprobe/src/lib.rs")
   echo "$P api probe: the generic instantiations the statement quantifies over type-check (apiprobe feature $f)"
+  # what was probed: the bound-asserting calls inside the function / module of this feature
+  n=$(awk -v f="$f" '/^#\[cfg\(feature = "/ {on = index($0, "\"" f "\"") > 0} on && /^[ ]+(clone|exact|yields|debug|display|peq|eq|ser|de|owned)(::<[^>]*>+)?\(|clone_from\(|::deserialize\(/ {c++} END {print c+0}' "$VERIF_DIR/apiprobe/src/lib.rs")
+  echo "{\"probe\":\"type-level api probe (cargo check of /verif/apiprobe, feature $f)\",\"result\":\"type-checks\",\"instantiations_asserted\":$n}" > "$W/apiprobe-$P.json"
   exit 0
 fi
 # the library itself (or a dependency) failing to build is not this property's business
